@@ -25,6 +25,7 @@ class Ctx:
         self._kernel: Optional[Kernel] = None
         self._path_cache: Dict[tuple, List[Path]] = {}
         self._stable_cache: Dict[str, set] = {}
+        self._known = None
 
     @property
     def thorough(self) -> bool:
@@ -58,6 +59,19 @@ class Ctx:
             return callee.module is root.module and callee.parent is None
 
         return pred
+
+    @property
+    def known_functions(self) -> set:
+        if self._known is None:
+            import json
+            import os
+
+            path = os.path.join(os.path.dirname(os.path.abspath(__file__)), "known_functions.json")
+            self._known = set(json.load(open(path, encoding="utf-8"))["functions"])
+        return self._known
+
+    def is_new(self, fn: FuncInfo) -> bool:
+        return fn.key not in self.known_functions
 
     def stable_attrs(self, fn: FuncInfo) -> set:
         """Attributes of `self` (class family of fn) assigned only in __init__ and not holding a
@@ -106,12 +120,20 @@ class Ctx:
         key = (fn.key, fn.lineno, str(inline), exc_edges, unroll, base_exc, max_depth, may_raise)
         if key in self._path_cache and bindings is None:
             return self._path_cache[key]
-        pred = None
+        base = None
         if inline == "helpers":
-            pred = self.helper_inline(fn)
+            base = self.helper_inline(fn)
         elif callable(inline):
-            pred = inline
-        e = Enumerator(self.p, self.r, inline=pred, max_depth=max_depth, unroll=unroll,
+            base = inline
+        known = self.known_functions
+
+        def pred(callee, depth, node, base=base, known=known):
+            # a function that did not exist in the analysed baseline is a helper introduced by a later change:
+            # always inline it (this is what makes 'extract helper' refactorings transparent to the rules)
+            if callee.key not in known and depth <= 5:
+                return True
+            return bool(base and base(callee, depth, node))
+        e = Enumerator(self.p, self.r, inline=pred, max_depth=max(max_depth, 5), unroll=unroll,
                        exc_edges=exc_edges, base_exc=base_exc, may_raise=may_raise,
                        stable_self_attrs=self.stable_attrs(fn))
         ps = e.paths(fn, bindings)
